@@ -31,6 +31,8 @@ struct Judge {
             res.sample("{\"scenario\": " + vu::jesc(sc.describe().substr(0, 1200)) + ", \"observed\": {\"connections\": " + std::to_string(ex.world->h.conns.size()) + ", \"client_packets\": " +
                        std::to_string(ex.world->h.cpkts.size()) + ", \"broker_packets\": " + std::to_string(ex.world->h.bpkts.size()) + ", \"operations\": " + std::to_string(ex.world->h.ops.size()) + "}}");
         res.count("connections", ex.world->h.conns.size());
+        if (ex.broker && ex.broker->acks_withheld) { res.count("acks_withheld_on_live_connections", ex.broker->acks_withheld); res.count("scenarios_with_withheld_acks"); }
+        { int sentry = 0; for (auto& k : ex.world->h.cpkts) if (k.dec.status == ref::Status::ok && k.dec.pkt.type == ref::DISCONNECT && k.dec.pkt.rc == 0x80) ++sentry; if (sentry) res.count("no_reply_disconnects", sentry); if (sentry > 1) res.count("scenarios_with_2plus_no_reply_disconnects"); }
         res.count("client_packets", ex.world->h.cpkts.size());
         res.count("broker_packets", ex.world->h.bpkts.size());
         res.count("operations", ex.world->h.ops.size());
@@ -80,6 +82,7 @@ struct Knobs {
     int authenticator_pct = 0;   // the client uses enhanced authentication (broker runs 0-1 challenge rounds)
     int invalid_pub_pct = 0;     // publishes that fail validation (must be refused at once and leave no trace in quota / ids)
     int rm_change_pct = 0;       // the broker announces a different Receive Maximum (or none) on later connections
+    int drop_ack_pct = 0;        // scenarios in which the broker withholds acknowledgements on a live connection for the first 30 s (only the 20 s sentry helps)
     int own_limit_pct = 0;       // the client announces a Maximum Packet Size; the broker sends messages exactly at / just below it
 };
 
@@ -175,6 +178,7 @@ Scenario gen_mix(vu::Rng& rng, const Knobs& k, const std::string& family) {
         if (rng.chance(1, 3)) { ref::Gen g(rng); g.max_str = 30; b.props = g.props(ref::PUBLISH, -1, {0x23}); }
         sc.script.push_back(b);
     }
+    if ((int)rng.below(100) < k.drop_ack_pct) { sc.bcfg.drop_ack_pct = (int)rng.pick(std::vector<int>{30, 50, 70}); sc.bcfg.drop_ack_until = 30 * SEC; if (sc.ccfg.keep_alive && sc.ccfg.keep_alive < 40) sc.ccfg.keep_alive = 60; }
     if ((int)rng.below(100) < k.own_limit_pct) {
         uint32_t lim = (uint32_t)rng.pick(std::vector<int>{70, 127, 128, 129, 130, 200, 300, 1000, 16383, 16384, 16390});
         sc.ccfg.connect_props[boost::mqtt5::prop::maximum_packet_size] = lim;
@@ -267,7 +271,7 @@ Scenario reference_workload(int which, uint64_t seed) {
 Knobs knobs_for(const std::string& family) {
     Knobs k;
     if (family == "c01-mix") { k.inbound = 3; k.qos_w[0] = 0; k.qos_w[1] = 1; k.qos_w[2] = 1; k.authenticator_pct = 10; }
-    else if (family == "c02-mix") { k.faults_max = 3; k.bad_attempts_max = 3; k.authenticator_pct = 10; }
+    else if (family == "c02-mix") { k.faults_max = 3; k.bad_attempts_max = 3; k.authenticator_pct = 10; k.drop_ack_pct = 15; }
     else if (family == "c03-mix") { k.qos_w[0] = 1; k.qos_w[1] = 1; k.qos_w[2] = 4; k.faults_max = 3; k.rm_choices = {0, 1, 2, 3}; }
     else if (family == "c04-mix") { k.pubs_max = 4; k.inbound = 8; k.faults_max = 3; k.lose_session_pct = 25; k.subs = 1; k.own_limit_pct = 20; }
     else if (family == "c05-mix") { k.suffix = 15 * SEC; }
